@@ -31,13 +31,53 @@ def run():
         if not o["end"].startswith(("discarded:", "fuel:")) and got != want:
             ck.reject("C15:inner-program", f"{src!r}: effects {got}, expected {want} (end {o['end'][:80]})", {"src": src, "observed": got, "expected": want, "end": o["end"]})
     ck.cov["inner_program_bodies"] = len(inner)
+    # long bodies: defers far down a body (positions around 64 / 128 / 256 statements) are reached like any other, on every way out
+    longs = []
+    for n in ((63, 64, 65, 66, 70, 130) if not thorough else (63, 64, 65, 66, 70, 127, 128, 129, 130, 255, 256, 257, 300, 1030)):
+        dpos = sorted({0, 1, n // 2, n - 8, n - 3, n - 2} | {q for q in (62, 63, 64, 65, 127, 128, 255, 256) if q < n - 1})
+        for way in ("value", "return", "raise", "nested"):
+            stmts, want = [], []
+            for i in range(n - 1):
+                if i in dpos:
+                    stmts.append(f'defer say("d{i}")' + (" if true" if i % 3 == 0 else ""))
+                elif i % 16 == 5:
+                    stmts.append(f'say("s{i}")')
+                    want.append(f"s{i}")
+                else:
+                    stmts.append(f"x{i % 7} := {i}")
+            stmts.append({"value": "7", "return": "return 7", "raise": 'raise Err.new("boom")', "nested": "1 / 0"}[way])
+            if way == "return":
+                stmts.append('defer say("never")')
+            want += [f"d{i}" for i in dpos]
+            want.append({"value": "[7, nil]", "return": "[7, nil]", "raise": "[nil, <err Err: boom>]", "nested": "[nil, <err ZeroDivisionErr: cannot be divided by 0>]"}[way])
+            longs.append((f"long:{n}:{way}", "f := {||\n" + "\n".join(stmts) + "\n}\nsay(nil.try.{|u| f()}.A)", want))
+    # a guarded defer whose guard raises: the error ends the body like any other (the defers reached before it run, nothing after it does)
+    for gk, (guard, err) in enumerate([("1 / 0", "ZeroDivisionErr: cannot be divided by 0"), ("undefinedname", "NameErr: name `undefinedname` is not defined"), ('gbad()', "Err: bad"),
+                                       ("1.nosuchprop", "NoPropErr: property `nosuchprop` is not defined.")]):
+        pre = 'gbad := {|| defer say("g"); raise Err.new("bad")}\n'
+        gw = ["g"] if guard == "gbad()" else []
+        longs.append((f"guard:{gk}:func", pre + f'f := {{|| defer say("d1"); say("a"); defer say("d2") if {guard}; say("never"); defer say("d3"); 7}}\nsay(nil.try.{{|u| f()}}.A)', ["a"] + gw + ["d1", f"[nil, <err {err}>]"]))
+        longs.append((f"guard:{gk}:method", pre + f'o := {{run: m{{defer say("d1"); defer say("d2") if {guard}; say("never"); 7}}}}\nsay(nil.try.{{|u| o.run}}.A)', gw + ["d1", f"[nil, <err {err}>]"]))
+        longs.append((f"guard:{gk}:nested", pre + f'f := {{|| defer say("d1"); defer say("d2") if {guard}; say("never"); 7}}\nh := {{|| defer say("h1"); r := f(); say("after"); r}}\nsay(nil.try.{{|u| h()}}.A)', gw + ["d1", "h1", f"[nil, <err {err}>]"]))
+        longs.append((f"guard:{gk}:unhandled", pre + f'f := {{|| defer say("d1"); defer say("d2") if {guard}; say("never"); 7}}\nf()\nsay("after")', gw + ["d1"]))
+    lout = run_cases([{"id": f"l{k}", "src": src, "deadline_ms": 20000} for k, (_, src, _) in enumerate(longs)], label="C15 long bodies and raising guards")
+    for k, (tag, src, want) in enumerate(longs):
+        o = lout[f"l{k}"]
+        got = [e[4:].strip('"') if e.startswith('out:"') else e[4:] for e in o["events"] if e.startswith("out:")]
+        if o["end"].startswith(("discarded:", "fuel:")):
+            continue
+        if pvlib.is_host_crash(o["end"]):
+            ck.reject("C15:host-crash", o["end"], {"src": src})
+        elif got != want or (tag.endswith(":unhandled") and not o["end"].startswith("err:")):
+            ck.reject("C15:" + ":".join(tag.split(":")[::2]), f"{tag}: effects {got[-12:]}, expected {want[-12:]} (end {o['end'][:80]})", {"src": src, "observed": got, "expected": want, "end": o["end"]})
+    ck.cov["long_bodies_and_raising_guards"] = len(longs)
     ck.cov["evaluations"] = len(fam)
     ck.cov["distinct_nontrivial"] = nontrivial
     ck.cov["traces_validated_against_impl"] = st["ok"] + st["mismatch"]
     ck.cov["exhaustive"] = True
     ck.cov["rule"] = (f"all bodies of 1..{n_func} statements over {evalfam.C15_KINDS} (each followed by a final value), called as function; bodies of "
                       f"1..{n_all} statements also as method, literal call, under try, and inside a function with its own defer; nested callees gok/gbad "
-                      "have their own defers; the same bodies bare (exactly these statements: one-statement bodies, bodies ending in a defer) as function, as a statement call inside another function, and as literal call; non-trivial = accepted runs whose body contains a defer")
+                      "have their own defers; the same bodies bare (exactly these statements: one-statement bodies, bodies ending in a defer) as function, as a statement call inside another function, and as literal call; bodies of 63..130 (thorough ..1030) statements with defers around positions 64 / 128 / 256 on four ways out; guarded defers whose guard raises (4 kinds x 4 contexts); non-trivial = accepted runs whose body contains a defer")
     ck.assumptions = ["a defer statement has no value: a body that ends with one evaluates to nil (fix 0b66096; before it the internal defer object leaked)"]
     if st["ok"] + st["mismatch"] < len(fam) * 0.95:
         raise pvlib.Broken(f"too many programs unsupported/discarded: {st}")
